@@ -132,6 +132,100 @@ pub fn cuts(boundaries: &[usize], max_children: usize) -> Vec<Cut> {
     out
 }
 
+
+// ---------------------------------------------------------------------------------------
+// Include *graphs*: three files whose include slots name any of the three files, so that a
+// file is included several times (siblings, diamond) or cyclically (self, 2- and 3-cycles).
+// The reference is textual inclusion with one rule for cycles: a directive naming a file
+// that is still open is refused with an error on the directive and contributes no text.
+
+pub const GRAPH_FILES: [&str; 3] = ["base.s", "a.s", "b.s"];
+/// (first line(s), line between the two slots, last line(s)) of each file
+const GRAPH_BODIES: [(&[&str], &str, &[&str]); 3] = [
+    (&["main:", "    li t0, 1"], "    addi zero, t0, 1", &["    li a7, 10", "    ecall"]),
+    (&["    addi t1, t0, 2"], "    add t2, t2", &["    addi t0, t0, 4"]),
+    (&["    addi zero, t0, 3"], "    lw t3, t0", &["    li t4, 5"]),
+];
+/// number of graphs: each of the 3 files has 2 slots, each empty or naming one of 3 files
+pub const N_GRAPHS: u64 = 4096;
+
+pub fn graph_files(g: u64) -> Vec<(String, String)> {
+    let mut g = g;
+    let mut out = Vec::new();
+    for f in 0..3 {
+        let (head, mid, tail) = GRAPH_BODIES[f];
+        let mut text = String::new();
+        for l in head {
+            text.push_str(l);
+            text.push('\n');
+        }
+        for slot in 0..2 {
+            let t = (g % 4) as usize;
+            g /= 4;
+            if t > 0 {
+                text.push_str(&format!("    .include \"{}\"\n", GRAPH_FILES[t - 1]));
+            }
+            if slot == 0 {
+                text.push_str(mid);
+                text.push('\n');
+            }
+        }
+        for l in tail {
+            text.push_str(l);
+            text.push('\n');
+        }
+        out.push((GRAPH_FILES[f].to_string(), text));
+    }
+    out
+}
+
+#[derive(Default)]
+pub struct Flat {
+    pub text: String,
+    /// flat line -> (file, line)
+    pub map: Vec<(usize, usize)>,
+    /// refused directives in reading order: (file, line, refused because the file is open)
+    pub refused: Vec<(usize, usize, bool)>,
+    pub requests: usize,
+}
+
+fn include_target(line: &str) -> Option<&str> {
+    let t = line.trim();
+    let rest = t.strip_prefix(".include")?.trim();
+    rest.strip_prefix('"')?.strip_suffix('"')
+}
+
+/// Textual inclusion. `answers[k]` is the reader's answer to the k-th request (0 = base file).
+pub fn flatten(files: &[(String, String)], f: usize, open: &mut Vec<usize>, answers: &[Answer], out: &mut Flat) {
+    for (li, line) in files[f].1.lines().enumerate() {
+        let Some(target) = include_target(line) else {
+            out.text.push_str(line);
+            out.text.push('\n');
+            out.map.push((f, li));
+            continue;
+        };
+        let k = out.requests;
+        out.requests += 1;
+        if answers.get(k).copied().unwrap_or(Answer::Ok) != Answer::Ok {
+            out.refused.push((f, li, false));
+            continue;
+        }
+        match files.iter().position(|(n, _)| n == target) {
+            None => out.refused.push((f, li, false)),
+            Some(g) if open.contains(&g) => out.refused.push((f, li, true)),
+            Some(g) => {
+                open.push(g);
+                flatten(files, g, open, answers, out);
+                open.pop();
+            }
+        }
+    }
+}
+
+const INCLUDE_ERRORS: [&str; 4] = ["parse-file-not-found", "parse-io-error", "parse-cyclic-dependency", "parse-unexpected-error"];
+
+type GSig = Vec<(String, usize, usize, String)>; // (code, file, line, designated text)
+
 pub struct C15 {
     quick: Pool,
     thorough: Pool,
@@ -190,6 +284,172 @@ impl C15 {
         Some(v)
     }
 
+
+    /// one include graph: no faults, then every answer sequence with one fault (thorough: two)
+    fn run_graph(&self, tier: Tier, case: u64, g: u64, acc: &mut Acc) {
+        let files = graph_files(g);
+        let locs: Vec<Locator> = files.iter().map(|f| Locator::new(&f.1)).collect();
+        let witness = |what: &str, answers: &[Answer], detail: Value| json!({"case": case, "tier": tier.name(), "kind": "include-graph", "graph": g, "files": files, "answers": format!("{answers:?}"), "what": what, "detail": detail});
+        // number of requests of the fault-free expansion bounds the fault positions
+        let mut plain = Flat::default();
+        plain.requests = 1;
+        flatten(&files, 0, &mut vec![0], &[], &mut plain);
+        let mut seqs: Vec<Vec<Answer>> = vec![vec![]];
+        if tier == Tier::Thorough || g % 4 == 0 {
+            for i in 1..plain.requests {
+                for fa in FAULTS {
+                    let mut a = vec![Answer::Ok; i];
+                    a.push(fa);
+                    seqs.push(a);
+                }
+            }
+        }
+        if tier == Tier::Thorough && g % 8 == 0 {
+            for i in 1..plain.requests {
+                for j in (i + 1)..(plain.requests + 2) {
+                    for fb in [Answer::IOErr, Answer::FileAlreadyRead] {
+                        let mut a = vec![Answer::Ok; j + 1];
+                        a[i] = Answer::IOErr;
+                        a[j] = fb;
+                        seqs.push(a);
+                    }
+                }
+            }
+        }
+        acc.count("trees", 1);
+        let repeated = plain.map.iter().filter(|(f, l)| *f == 1 && *l == 0).count() > 1 || plain.map.iter().filter(|(f, l)| *f == 2 && *l == 0).count() > 1;
+        let cyclic = plain.refused.iter().any(|r| r.2);
+        if repeated || cyclic {
+            acc.count("nontrivial", 1);
+        }
+        if repeated {
+            acc.count("graphs_with_a_file_included_twice", 1);
+        }
+        if cyclic {
+            acc.count("graphs_with_a_cycle", 1);
+        }
+        for ans in seqs {
+            let mut flat = Flat::default();
+            flat.requests = 1;
+            flatten(&files, 0, &mut vec![0], &ans, &mut flat);
+            // expected: the diagnostics of the pasted text, mapped back to (file, line)
+            let Ok(single) = imp::analyze(MemReader::single(&flat.text), "base.s", &[]) else {
+                acc.count("analysis_panicked", 1);
+                continue;
+            };
+            let floc = Locator::new(&flat.text);
+            let mut want: GSig = Vec::new();
+            for d in &single.diags {
+                if d.file < 0 || flat.text.is_empty() {
+                    want.push((d.code.clone(), usize::MAX, usize::MAX, String::new()));
+                    continue;
+                }
+                let fl = floc.line_of(d.start_raw.min(floc.len().saturating_sub(1)));
+                let (f, l) = flat.map.get(fl).copied().unwrap_or((usize::MAX, usize::MAX));
+                want.push((d.code.clone(), f, l, floc.slice(d.start_raw, d.end_raw)));
+            }
+            want.sort();
+            let mut reader = MemReader::new(files.clone());
+            reader.answers = ans.clone();
+            reader.import_limit = 64;
+            let run = match imp::analyze(reader, "base.s", &[]) {
+                Ok(r) => r,
+                Err(p) => {
+                    acc.violation(format!("C15|graph|panic|{}", p.0.chars().take(40).collect::<String>()), case, witness("panic", &ans, json!(p.0)));
+                    return;
+                }
+            };
+            acc.count("traces", 1);
+            if !ans.is_empty() {
+                acc.count("fault_histories", 1);
+            }
+            let mut got: GSig = Vec::new();
+            let mut got_refused: Vec<(usize, usize, bool)> = Vec::new();
+            for d in &run.diags {
+                if d.file < 0 {
+                    got.push((d.code.clone(), usize::MAX, usize::MAX, String::new()));
+                    continue;
+                }
+                let f = d.file as usize;
+                if d.start_raw >= locs[f].len() || d.end_raw >= locs[f].len() {
+                    acc.violation("C15|graph|location-outside-its-file", case, witness("a diagnostic is attributed to a file that does not contain its position", &ans, json!(d)));
+                    return;
+                }
+                let l = locs[f].line_of(d.start_raw);
+                if INCLUDE_ERRORS.contains(&d.code.as_str()) {
+                    got_refused.push((f, l, d.code == "parse-cyclic-dependency"));
+                } else {
+                    got.push((d.code.clone(), f, l, locs[f].slice(d.start_raw, d.end_raw)));
+                }
+            }
+            got.sort();
+            // refused imports: one error each, on the directive; a file that is still open is a
+            // cyclic dependency, a reader fault may be reported with any of the include errors
+            let mut want_refused = flat.refused.clone();
+            want_refused.sort();
+            got_refused.sort();
+            let same_places = want_refused.iter().map(|r| (r.0, r.1)).collect::<Vec<_>>() == got_refused.iter().map(|r| (r.0, r.1)).collect::<Vec<_>>();
+            let cyclic_named = want_refused.iter().filter(|r| r.2).all(|r| got_refused.contains(r));
+            if !same_places || !cyclic_named {
+                let shape = if got_refused.len() > want_refused.len() {
+                    "an-include-is-refused-without-reason"
+                } else if got_refused.len() < want_refused.len() {
+                    "a-refused-include-draws-no-error"
+                } else if !same_places {
+                    "error-on-another-line"
+                } else {
+                    "cycle-not-named"
+                };
+                acc.violation(
+                    format!("C15|graph|include-errors|{shape}|{}", if cyclic { "cyclic" } else if repeated { "repeated" } else { "plain" }),
+                    case,
+                    witness("the include errors are not exactly one per refused directive, on the directive", &ans, json!({"expected (file, line, cyclic)": want_refused, "reported": got_refused, "diagnostics": run.diags})),
+                );
+                return;
+            }
+            if got != want {
+                let missing: Vec<_> = want.iter().filter(|x| !got.contains(x)).collect();
+                let extra: Vec<_> = got.iter().filter(|x| !want.contains(x)).collect();
+                let first = missing.first().map(|m| format!("lost:{}", m.0)).or(extra.first().map(|e| format!("new:{}", e.0))).unwrap_or("multiplicity".into());
+                acc.violation(
+                    format!("C15|graph|differs-from-pasted-file|{first}|{}", if cyclic { "cyclic" } else if repeated { "repeated" } else { "plain" }),
+                    case,
+                    witness("diagnostics of the include graph differ from those of the pasted text", &ans, json!({"pasted": flat.text, "missing": missing, "extra": extra})),
+                );
+                return;
+            }
+        }
+        // the CLI on the same graph (every 64th): same items with --all-files
+        if crate::profile() == "release" && g % 64 == 1 {
+            let mut flat = Flat::default();
+            flat.requests = 1;
+            flatten(&files, 0, &mut vec![0], &[], &mut flat);
+            let mut reader = MemReader::new(files.clone());
+            reader.import_limit = 64;
+            if let Ok(run) = imp::analyze(reader, "base.s", &[]) {
+                let c = cli::CliCase {
+                    name: "c15g".into(),
+                    entries: files.iter().map(|(n, t)| cli::Entry::File(n.clone(), t.as_bytes().to_vec())).collect(),
+                    base: "base.s".into(),
+                };
+                let dir = cli::materialize(&c);
+                if let Ok(o) = cli::run_rva("release", &dir, "base.s", &["--compact", "--no-color", "--all-files"], &[("RVA_VERIF_SCHEDULE", String::new())], Duration::from_secs(10)) {
+                    acc.count("cli_runs", 1);
+                    let item_lines = o.stdout.lines().filter(|l| l.starts_with("Error:") || l.starts_with("Warning:") || l.starts_with("Info:") || l.starts_with("Hint:")).count();
+                    if item_lines != run.diags.len() {
+                        acc.violation(
+                            "C15|graph|cli-differs-from-library",
+                            case,
+                            witness("the binary reports another number of items than the library for the same files", &[], json!({"stdout": o.stdout, "library": run.diags})),
+                        );
+                    }
+                }
+                let _ = std::fs::remove_dir_all(dir);
+            }
+        }
+        acc.outcome(if cyclic { "graph:cyclic" } else if repeated { "graph:repeated-file" } else { "graph:tree" }, case);
+    }
+
     /// signature of a tree run, mapped back to original lines; also checks per-file attribution
     fn sig_tree(tree: &Tree, diags: &[Diag]) -> Result<Sig, String> {
         let locs: Vec<Locator> = tree.files.iter().map(|f| Locator::new(&f.1)).collect();
@@ -225,13 +485,18 @@ impl Property for C15 {
         "C15"
     }
     fn cases(&self, tier: Tier) -> u64 {
-        self.extra.len() as u64 + self.pool(tier).count()
+        self.extra.len() as u64 + self.pool(tier).count() + N_GRAPHS
     }
     fn chunk(&self, _tier: Tier) -> u64 {
         4
     }
     fn run_case(&self, tier: Tier, case: u64, acc: &mut Acc) {
         acc.count("cases", 1);
+        let n_programs = self.extra.len() as u64 + self.pool(tier).count();
+        if case >= n_programs {
+            self.run_graph(tier, case, case - n_programs, acc);
+            return;
+        }
         let Some((tag, text)) = self.program(tier, case) else {
             acc.count("not_a_member", 1);
             return;
@@ -450,9 +715,9 @@ impl Property for C15 {
     }
     fn info(&self, tier: Tier) -> Info {
         Info {
-            rule: "17 statement programs (incl. malformed statements) plus the program pool (every 1951st / 97th member of the quick S family, clean and injected) x every cut at up to 5 / 7 line boundaries into an include tree of <= 3 / <= 4 files and depth <= 3 (siblings, nesting, chains): through the in-memory reader the diagnostics, mapped back through the flattener to (code, original line, designated text), must equal those of the pasted file and every item must lie inside the file it is attributed to; for every tree every reader-answer sequence with one fault (thorough: also two faults on every 7th tree) must give exactly one error per refused import, located on its .include line, and leave the rest analysed like the program without the refused file; every 23rd tree is written to disk and the rva binary must show exactly the base file's items plus the right 'other files' counter by default and everything with --all-files. Non-trivial = trees with >= 2 files".into(),
+            rule: "17 statement programs (incl. malformed statements) plus the program pool (every 1951st / 97th member of the quick S family, clean and injected) x every cut at up to 5 / 7 line boundaries into an include tree of <= 3 / <= 4 files and depth <= 3 (siblings, nesting, chains): through the in-memory reader the diagnostics, mapped back through the flattener to (code, original line, designated text), must equal those of the pasted file and every item must lie inside the file it is attributed to; for every tree every reader-answer sequence with one fault (thorough: also two faults on every 7th tree) must give exactly one error per refused import, located on its .include line, and leave the rest analysed like the program without the refused file; every 23rd tree is written to disk and the rva binary must show exactly the base file's items plus the right 'other files' counter by default and everything with --all-files. Then all 4096 include graphs on {base.s, a.s, b.s} (a file included twice as sibling or diamond, self-inclusion, 2- and 3-cycles): textual inclusion where a directive naming a file that is still open is refused; the items must equal those of the pasted text mapped back to (file, line), one error per refused directive on the directive, a cycle named as such; every answer sequence with one fault (quick: every 4th graph; thorough: all, and two faults on every 8th). Non-trivial = trees with >= 2 files / graphs with a repeated or cyclic file".into(),
             bounds: json!({"programs": self.cases(tier), "max_files": tier.pick(3, 4), "boundaries_per_program": tier.pick(5, 7)}),
-            assumptions: vec!["cycles and self-inclusion are covered by C06 (termination) - a tree cut from a program is acyclic".into()],
+            assumptions: vec!["a tree cut from a program is acyclic and names every file once; repeated and cyclic inclusion is covered by the 4096 include graphs on three files (two include slots per file, each empty or naming any of the three files) compared with the flattener under the same fault sequences".into()],
             states_counter: "trees",
             transitions_counter: "traces",
             traces_counter: "traces",
